@@ -52,7 +52,7 @@ fn work_dir() -> String {
 }
 
 fn build(cfg: &Cfg) -> Result<String, String> {
-    let target = format!("/verif/target/c19{}/{}", if std::env::var("DV_HARNESS").is_ok() { "-mut" } else { "" }, cfg.name);
+    let target = format!("{}/{}", std::env::var("DV_EVAL_TARGET").unwrap_or_else(|_| if std::env::var("DV_HARNESS").is_ok() { "/verif/target/c19-mut".to_string() } else { "/verif/target/c19".to_string() }), cfg.name);
     let mut rustflags = String::from("--cfg dashu_verif");
     if let Some(b) = cfg.force_bits {
         rustflags.push_str(&format!(" --cfg force_bits=\"{b}\""));
